@@ -12,7 +12,9 @@ Row(n, a, b, r) == [t \in 1..n |-> ((a * t * t + b * t + 3 * r + (t \div 3)) % 1
 SpecCases == {[blk |-> "spec", n |-> n, data |-> <<Row(n, ab[1], ab[2], 1), Row(n, ab[2], ab[1] + 1, 2)>>,
                k |-> k, seed |-> s]
               : n \in 3..NMax, ab \in {<<1, 2>>, <<3, 1>>, <<2, 5>>}, k \in {1, 2, 3, 5}, s \in 0..(Seeds - 1)}
-TwinCases == {[blk |-> "twin", p |-> p, x |-> [t \in 1..LenT |-> 16 * p[t] + (t - 1)], dim |-> d, md |-> md,
+\* x2: a second series in the same object (the reversed pattern): every series has its OWN twins
+TwinCases == {[blk |-> "twin", p |-> p, x |-> [t \in 1..LenT |-> 16 * p[t] + (t - 1)],
+               x2 |-> [t \in 1..LenT |-> 16 * p[LenT + 1 - t] + (t - 1)], dim |-> d, md |-> md,
                seed |-> (p[1] + 2 * p[2] + d + md) % 5,
                \* prior = 1: the object has already produced twin surrogates for the OTHER embedding dimension
                prior |-> pr]
